@@ -37,6 +37,11 @@ P = {
         note="Bootstrap float tables: 'unchanged' = equal within 1e-9 relative; four input classes are recorded known findings (F10b, F11, F14, F15).",
         tech="Coq proof (additivity of group sums over appended rows) + paired-run differential correspondence",
         ref="DESIGN.md section 5 C11"),
+    "C09": dict(
+        text="Theorems for every baseline, feed, blocklist, limits, policy and every outcome of the outlier models: the procedural pipeline (filters, isin, concat, drop_duplicates keep-first, written as the code is) gives each joined unit the category and reporting flag of the ordered decision table; used-for-fit iff the documented conjunction with strict limits; units below threshold predicted; turnout factor = quotient, 0 when the denominator is 0; every unit exactly once (partition). Correspondence: get_units on boundary-heavy elections with captured outlier flags, and the complete single-unit decision table (480 probes, stubbed outlier model, both policies) every run.",
+        note="Outlier-model flags are oracle inputs; the join on (postal_code, unit id) is modelled for feeds whose ids keep one state.",
+        tech="Coq proof (keyed-list lemmas: first-occurrence dedup, filters under unique ids) + exhaustive decision-table enumeration + differential correspondence",
+        ref="DESIGN.md section 5 C09"),
 }
 
 REASON_NOT_BUILT = "check not built yet in this development stage (planned: see DESIGN.md section 5)"
